@@ -319,6 +319,14 @@ func raceSingle(vc *VC, r *Result, file string, ms int, par chan struct{}) {
 	}
 	ctx, cancel := context.WithCancel(context.Background())
 	defer cancel()
+	racers := racers
+	if r.Expect == "sat" {
+		// reachability witnesses are advisory: a short look with two renderings
+		racers = racers[:2]
+		if ms > 10000 {
+			ms = 10000
+		}
+	}
 	ch := make(chan ans, len(racers))
 	for _, rc := range racers {
 		go func(sp solverSpec, m Mode) {
